@@ -156,7 +156,7 @@ struct SeqEngine : Engine
     std::vector<std::string> components(std::string const &prop) const override
     {
         std::vector<std::string> v;
-        if (prop == "C04") v = {"REAL: src/vec.c, src/buf.c, src/a.c (a_copy/a_move/a_swap), inline accessors of include/a/vec.h and include/a/buf.h, libc qsort/bsearch", "STUB: allocator behind a_alloc (ledger, exact sizes, relocation, junk fill, reuse); comparator / destructor / copy callbacks"};
+        if (prop == "C04") v = {"REAL: src/vec.c, src/buf.c, src/a.c (a_copy/a_move/a_swap), inline accessors of include/a/vec.h and include/a/buf.h, libc qsort/bsearch", "STUB: allocator behind a_alloc (ledger, exact sizes, relocation, junk fill, reuse; one run in six passes through to the REAL default allocator a_alloc_ of src/a.c); comparator / destructor / copy callbacks"};
         else if (prop == "C05") v = {"REAL: include/a/list.h, include/a/slist.h (inline, compiled into the harness), src/que.c, include/a/que.h", "STUB: allocator behind a_alloc; list nodes live in harness arenas; comparator callback"};
         else if (prop == "C06") v = {"REAL: src/str.c, a_utf_encode from src/utf.c, libc vsnprintf/memchr/isspace", "STUB: allocator behind a_alloc"};
         else v = {"REAL: src/vec.c, src/que.c, src/str.c, src/buf.c, src/a.c (a_alloc pointer), src/utf.c", "STUB: allocator behind a_alloc with failure injection (n-th request of an operation; all requests from the n-th on until a recovery point; Bernoulli)"};
@@ -165,7 +165,7 @@ struct SeqEngine : Engine
     std::string rule(std::string const &prop) const override
     {
         if (prop == "C07") return "items are seeded operation histories (3-40 ops) over vec/que/str/buf; within each history EVERY allocation request counted in a fault-free execution is failed once alone (with immediate retry) and once persistently until a seeded recovery point, plus four Bernoulli multi-fault executions; evaluations = executions; distinct_nontrivial = HyperLogLog estimate of distinct (container kind, element size, length, spare-capacity class, fault state) abstract states visited";
-        return "items are seeded operation histories executed against the real container and a reference model after every operation; evaluations = histories; distinct_nontrivial = HyperLogLog estimate of distinct abstract states (container kind, element size, length, spare-capacity class, sortedness / terminated flag) visited after an operation";
+        return "items are seeded operation histories (functions, typed macro forms and iteration macros of the headers; element sizes 0..1000; lengths up to 700; fill/drain bursts) executed against the real container and a reference model after every operation, on a simulated allocator (relocating, junk-filling, reusing, or passing through to the library's own a_alloc_); evaluations = histories; distinct_nontrivial = HyperLogLog estimate of distinct abstract states (container kind, element size, length, spare-capacity class, sortedness / terminated flag) visited after an operation";
     }
     std::string level(std::string const &prop) const override { return prop == "C07" ? "fault_enumeration" : "exploration"; }
     std::vector<std::string> assumptions(std::string const &prop) const override
